@@ -8,7 +8,7 @@ ORACLE_CRASH_ALL = ("suite_oracle:run_crash_all", {"n": {"quick": 36, "thorough"
 
 SYMMETRY = ("suite_symmetry", {"n": {"quick": 80, "thorough": 1200}})
 HYPERBAND = ("suite_hyperband", {"n": {"quick": 100, "thorough": 2500}})
-LIVENESS = ("suite_liveness", {"n": {"quick": 120, "thorough": 2500}})
+LIVENESS = ("suite_liveness", {"n": {"quick": 240, "thorough": 4000}})
 ORACLE_SMALL = ("suite_oracle", {"n": {"quick": 120, "thorough": 2000}})
 
 TRANSFORMS = ("suite_transforms", {"n": {"quick": 500, "thorough": 10000}})
@@ -16,15 +16,18 @@ METRICS = ("suite_metrics", {"n": {"quick": 600, "thorough": 12000}})
 CHECKPOINT = ("suite_checkpoint", {"n": {"quick": 4, "thorough": 50}})
 
 SEARCH = ("suite_search", {"n": {"quick": 160, "thorough": 3000}, "crash_n": {"quick": 6, "thorough": 100}})
+SEARCH_RESUME = ("suite_search", {"n": {"quick": 80, "thorough": 1500}, "crash_n": {"quick": 0, "thorough": 0}})
 SEARCH_CRASH = ("suite_search", {"n": {"quick": 20, "thorough": 200}, "crash_n": {"quick": 8, "thorough": 150}})
 
 GRID = ("suite_grid", {"n": {"quick": 120, "thorough": 3000}})
 GRID_DISCOVER_RELOAD = ("suite_grid", {"n": {"quick": 100, "thorough": 2500}, "modes": ("discover-reload",)})
+GRID_DISCOVER_RELOAD_SMALL = ("suite_grid", {"n": {"quick": 60, "thorough": 1500}, "modes": ("discover-reload",)})
 GRID_DISCOVER = ("suite_grid", {"n": {"quick": 320, "thorough": 5000}, "modes": ("discover",)})
 SAMPLING = ("suite_sampling", {"n": {"quick": 160, "thorough": 3000}, "subprocs": {"quick": 1, "thorough": 2}})
 SAMPLING_GROW = ("suite_sampling", {"n": {"quick": 120, "thorough": 3000}, "subprocs": 0, "modes": ("grow-random", "grow-hyperband")})
 SAMPLING_SAMENAME = ("suite_sampling", {"n": {"quick": 90, "thorough": 2000}, "subprocs": 0, "modes": ("samename-random", "samename-hyperband", "samename-bayes")})
 TRANSFORMS_SMALL = ("suite_transforms", {"n": {"quick": 200, "thorough": 3000}})
+HYPERBAND_RELOAD = ("suite_hyperband:run_reload", {"n": {"quick": 100, "thorough": 2500}})
 HYPERBAND_SMALL = ("suite_hyperband", {"n": {"quick": 40, "thorough": 800}})
 
 SYNC = ("suite_sync", {"n": {"quick": 200, "thorough": 4000}})
@@ -51,10 +54,12 @@ PROPS = {
                           "A proof covers all interleavings x outcomes x oracle kinds at once, which sampling cannot.",
             "level_note": CORE_NOTE + " Calls are driven from one thread: C01 is about interleavings of requests; thread-level atomicity is C17.",
             "assumptions": ["calls are driven from one thread: C01 is about interleavings of requests; thread-level atomicity is C17"]},
-    "C02": {"suites": [ORACLE],
+    "C02": {"suites": [ORACLE, SEARCH_RESUME],
             "level_text": "Theorems (Ktm/Props/C02.lean): for every request list, algorithm and outcome pattern the number of distinct "
                           "trials never exceeds max_trials (aborted runs included), retries are free, STOPPED once the budget is used "
-                          "and no retry is pending, remaining = N - n, and the bound survives reload of any consistent disk.",
+                          "and no retry is pending, remaining = N - n, and the bound survives reload of any consistent disk. "
+                          "The restart clause at tuner level (BaseTuner decides by its own state file whether to reload) is monitored directly "
+                          "on interrupted and restarted searches (`search` suite: finished trials known again, remaining_trials = N - n).",
             "level_note": CORE_NOTE, "assumptions": []},
     "C03": {"suites": [ORACLE],
             "level_text": "Theorems (Ktm/Props/C03.lean): decision logic of end_trial/_retry stated outright (INVALID or NaN below the run "
@@ -62,7 +67,7 @@ PROPS = {
                           "retry starting from empty reports), retries served first with the same values, final trials never reissued, "
                           "and abort <=> the end order contains K consecutive FAILED (scanning loop proved equivalent to the list statement).",
             "level_note": CORE_NOTE, "assumptions": []},
-    "C07": {"suites": [ORACLE_RELOAD, GRID_DISCOVER_RELOAD],
+    "C07": {"suites": [ORACLE_RELOAD, GRID_DISCOVER_RELOAD, HYPERBAND_RELOAD],
             "level_text": "Theorems (Ktm/Props/C07.lean): trial files and oracle file stay consistent with memory along every run of "
                           "complete operations (any algorithm, schedule, outcomes); reload of a saved disk = the state with its running "
                           "trials queued again, all other trials, orders, run counts and the algorithm state restored exactly; the "
@@ -221,10 +226,11 @@ PROPS = {
                           "monitor checks completeness and parent-first order on the implementation. Values are integer codes assigned by the harness "
                           "(type-aware); Choice retypes bool choices to ints, so bool choices are not generated (recorded in DESIGN.md).",
             "assumptions": ["build functions are the generated program family (declarations, name scopes, conditional scopes, reads)"]},
-    "C15": {"suites": [CODEC],
+    "C15": {"suites": [CODEC, GRID_DISCOVER_RELOAD_SMALL],
             "level_text": "Theorems (Ktm/Props/C15.lean): fromJ (toJ x) = x for conditions, the five hyperparameter kinds with every configured field, "
                           "the container (order and values), observations, histories and trials, for ALL values of those types; a copy is an equal "
-                          "value; oracle state restored by reload (C07). The model is tied to the code by parsing every JSON tree the implementation "
+                          "value; oracle state restored by reload (C07; the grid oracle's saved state is exercised by interrupted grid searches with late declarations: the "
+                          "reloaded oracle must continue like the original). The model is tied to the code by parsing every JSON tree the implementation "
                           "writes with the model's reader, writing it back with the model's writer and comparing the canonical text.",
             "level_note": "The JSON text level (json.dumps / json.loads) is Python's; float values are opaque tokens in the model (exact ratio / nan / inf); "
                           "'equal in every observable respect' for implementation objects (defaults, value lists, transforms, activity, best values) is "
